@@ -2028,7 +2028,7 @@ MANIFEST = {
                   "collecting loop) and proved, for all values the reads can return, to compute exactly the model's "
                   "message lists (C14_guards_entity/file/property/feature/range/sampled/array/tag/multi_tag/"
                   "get_dim_units; coverage and locals pinned by C14_guards_opaque/cover/locals); the read behind `dim.ticks` of a "
-                  "descriptor linked to a DataArray is modelled too (Pure/DimLink.lean: link_data_array's verdict, "
+                  "descriptor linked to a DataArray is modelled too (Pure/DimLinkTicks.lean: link_data_array's verdict, "
                   "is_alias, DimensionLink.values as a vector of row-major data): the tick count message is reported "
                   "iff the provider's extent along the marked axis differs from the data extent, whatever is_alias says "
                   "(C14_linked_ticks_count / _read / C14_link_accepts_any_length / C14_linked_is_alias); exact differential runs on "
